@@ -219,10 +219,32 @@ def check_case(case, ctx):
     ctx.case(case, nt, sample={'expr': cs.render(e), 'outcome': r} if nt else None)
 
 
+def edge_cases():
+    """Complete small grid at both ends of the code space: every pair of ranges / characters next to U+0000 and U+10FFFF
+    under | and - in both orders, and their negations (off-by-one arithmetic on end-points has nowhere to hide here)."""
+    M = cs.MAXCP
+    items = []
+    for (a, b) in ((M - 3, M), (M - 1, M), (M - 6, M - 2), (M - 9, M - 7), (M - 2, M - 1), (0, 2), (0, 1), (1, 4), (3, 6), (5, 6)):
+        items.append(['between', ['c', chr(a)], ['c', chr(b)]])
+    for c in (M, M - 1, M - 4, 0, 1, 3):
+        items.append(['from', [['c', chr(c)]]])
+    items.append(['from', [['c', chr(M)], ['c', chr(M - 2)], ['c', chr(0)]]])
+    for x in items:
+        for y in items:
+            for op in ('or', 'sub'):
+                yield {'expr': [op, x, y]}
+                yield {'expr': [op, ['inv', x], ['inv', y]]}
+        yield {'expr': ['inv', ['inv', x]]}
+
+
 def shards(tier):
-    n = 16 if tier == 'quick' else 64
-    return [{'examples': 400 if tier == 'quick' else 3000} for _ in range(n)]
+    n = 15 if tier == 'quick' else 63
+    return [{'examples': 400 if tier == 'quick' else 3000} for _ in range(n)] + [{'mode': 'edges'}]
 
 
 def run_shard(spec, ctx):
+    if spec.get('mode') == 'edges':
+        from pbt.common import run_enumeration
+        run_enumeration(ctx, edge_cases(), check_case, 'pairs of ranges/characters adjacent to U+0000 and U+10FFFF under | and -, both orders, both polarities')
+        return
     run_hypothesis(ctx, st.fixed_dictionaries({'expr': expr_strategy()}), check_case, spec['examples'])
